@@ -212,7 +212,8 @@ func NewL1(opt L1Options) *L1 {
 
 	perm := &PermKeeper{key: keys[permStoreKey]}
 	ch := &ChanKeeper{key: keys[chanStoreKey]}
-	var bh ophosttypes.BridgeHook = hook.NewBridgeHook(ch, perm, ak.AddressCodec())
+	// wired the way an application wires it: the IBC permission hook inside the composite hook list
+	var bh ophosttypes.BridgeHook = ophosttypes.NewBridgeHooks(hook.NewBridgeHook(ch, perm, ak.AddressCodec()))
 	if opt.NoHook {
 		bh = ophosttypes.NewBridgeHooks()
 	}
